@@ -700,7 +700,7 @@ func (p *parser) parseCallExpression(function ast.Expression) ast.Expression {
 		calleeIdent := &ast.Identifier{Value: exp.Function.String()}
 		p.nextToken()
 		p.nextToken()
-		parseExp := p.parseExpression(LOWEST)
+		parseExp := p.parseExpression(PREFIX)
 
 		exp.ChainCallee = p.assignCallee(parseExp, calleeIdent)
 		if exp.ChainCallee == nil {
@@ -762,7 +762,7 @@ func (p *parser) parseIndexExpression(left ast.Expression) ast.Expression {
 		calleeIdent := &ast.Identifier{Value: left.String()}
 		p.nextToken()
 		p.nextToken()
-		parseExp := p.parseExpression(LOWEST)
+		parseExp := p.parseExpression(PREFIX)
 
 		exp.Callee = p.assignCallee(parseExp, calleeIdent)
 		if exp.Callee == nil {
